@@ -8,7 +8,7 @@ FamA == {[Base EXCEPT !.R = R, !.rwp = rwp, !.owp = owp, !.rms = rms, !.pms = pm
            R \in 1..3, rwp \in {"ones", "seq", "zeroend", "allzero", "mixed"}, owp \in {"one", "big", "pair", "zero", "mixed", "near"},
            rms \in {-1, 0, 1, 2, 3, 5}, pms \in {-1, 1, 2, 3, 5}}
 FamB == {[Base EXCEPT !.V = V, !.bnd = b, !.mask = mk, !.ptype = pt, !.magn = mg] :
-           V \in 1..3, b \in {"default", "scalar", "vector", "mixinf", "crossed", "badlen", "crossfix"},
+           V \in 1..3, b \in {"default", "scalar", "vector", "mixinf", "crossed", "badlen", "crossfix", "nested"},
            mk \in {"none", "scalar", "vector", "badlen"}, pt \in {"abs", "rel"}, mg \in {"scalar", "vector", "badlen"}}
 FamC == {[Base EXCEPT !.lin = ln, !.nl = nl, !.bnd = b, !.ptype = pt] :
            ln \in {"none", "ok", "badcols", "crossed"}, nl \in {"none", "scalar", "vector", "crossed"}, b \in {"scalar", "vector"},
